@@ -67,6 +67,9 @@ pub fn validate(d: &Doc) -> Result<(), String> {
     let Ok(text) = std::str::from_utf8(&d.bytes) else { return Ok(()) };
     let mine = truth_tokens(d)?;
     let theirs = strip_quirks(html5ever_tokens(text));
+    if crate::oracle::take_oracle_panicked() {
+        return Ok(());
+    }
     // a truncated document: html5ever may emit tokens for the unfinished tail; compare the common prefix only
     if mine != theirs {
         let n = mine.len().min(theirs.len());
